@@ -36,6 +36,19 @@
 (*   PS    (a, b): a # O, e(a, X + sum [m_i]Y_i) = e(b, g) for a generator *)
 (*          g # O of G2; two-party version: the verifier's output element  *)
 (*          of G_T is the unity iff this holds for the combined shares     *)
+(*   MKLHS sig = sum_i [sk_i](sum_j [f_ij](H(id_i||tag_j) + H(data||id_i)) *)
+(*          + [mu_i]G1) and m = sum mu_i mod n; hash points bound from the *)
+(*          execution (each call's input must be the expected string)      *)
+(*   CMLHS (BLS tags) the two pairing equations of the scheme in the       *)
+(*          exponent + the BLS equation per signer; the logarithm of the   *)
+(*          combined S comes from the captured random scalars of the       *)
+(*          signer, the G_T key elements are bound to their exponents      *)
+(* ETRS: the library's tests fix an EXACT threshold (a signature of t + 1  *)
+(* signers is refused for t): the verdict must be ACCEPT only if at least  *)
+(* t signed and must be ACCEPT if exactly t did (see EtrsOk).              *)
+(* Calls that may end abnormally (buffers sized by an operand) run in a    *)
+(* child process of the driver; the field crash (signal number, 0 = none)  *)
+(* is part of the event and must be 0.                                     *)
 (* Scalars that are signature components must lie in [0, n) (property      *)
 (* text: components >= group order are rejected); messages are taken mod n *)
 (* where the scheme signs elements of Z_n.                                 *)
